@@ -25,7 +25,7 @@ from ..selftest import Mutant
 from . import kinds_driver
 
 PROP = "C06"
-TECHNIQUE = "static analysis: rank-domain abstract interpretation of the partial-run path + truth-table evaluation of the reduced-axis predicate + validation-dominance (CFG) + guard analysis of the selection flag + one-shot iterator linearity (at most one consumer per path)"
+TECHNIQUE = "static analysis: rank-domain abstract interpretation of the partial-run path + truth-table evaluation of the reduced-axis predicate + validation-dominance (CFG) + guard analysis of the selection flag + one-shot iterator linearity (at most one consumer per path) + sequence-position vs linear-index kinds for learner sequences + caller-belief (assert not None) vs callee None-returns under transferred guard facts + no process-wide memo of pipeline-derived facts"
 AD = "pipefunc.map.adaptive"
 PREP = "pipefunc.map._prepare"
 RUN = "pipefunc.map._run"
